@@ -2450,7 +2450,7 @@ class sptensor:
                     else:
                         newsz.append(max([self.shape[n], key_n.stop]))
                     m = m + 1
-                elif isinstance(key_n, (float, int)):
+                elif isinstance(key_n, (float, int, np.integer)):
                     if self.ndims <= n:
                         newsz.append(key_n + 1)
                     else:
@@ -2462,6 +2462,7 @@ class sptensor:
                         newsz.append(max(key_n) + 1)
                     else:
                         newsz.append(max([self.shape[n], max(key_n) + 1]))
+                    m = m + 1
             self.shape = tuple(newsz)
 
             # Expand subs array if there are new modes, i.e., if the order
@@ -2473,7 +2474,8 @@ class sptensor:
                         shape=(
                             self.subs.shape[0],
                             len(self.shape) - self.subs.shape[1],
-                        )
+                        ),
+                        dtype=int,
                     ),
                     axis=1,
                 )
